@@ -213,6 +213,70 @@ func c03IndexCommand(c *Ctx, sx *symx.Ctx, F []string) {
 		}
 		tagList[tag] = list
 	})
+	// the written-out form: in a range over a token list,
+	//   e := termFreqs[t]; e.<field>++; termFreqs[t] = e
+	// counts that list under <field>
+	for _, l := range loops {
+		if l.IsMap || l.Over == nil {
+			continue
+		}
+		isElem := func(v ssa.Value) bool {
+			u, ok := v.(*ssa.UnOp)
+			if !ok {
+				return false
+			}
+			ia, ok := u.X.(*ssa.IndexAddr)
+			return ok && ia.X == l.Over && ia.Index == l.Index
+		}
+		ssau.ForEachInstr(fn, false, func(in ssa.Instruction) {
+			st, ok := in.(*ssa.Store)
+			if !ok || !l.InLoop(st.Block()) {
+				return
+			}
+			fa, ok := st.Addr.(*ssa.FieldAddr)
+			if !ok || ssau.NamedOf(fa.X.Type()) != dbPkg+".fieldTF" {
+				return
+			}
+			cell, ok := fa.X.(*ssa.Alloc)
+			if !ok {
+				return
+			}
+			bo, ok := st.Val.(*ssa.BinOp)
+			if !ok || bo.Op != token.ADD {
+				return
+			}
+			if one, ok := ssau.ConstInt(bo.Y); !ok || one != 1 {
+				return
+			}
+			if ld, ok := bo.X.(*ssa.UnOp); !ok || ld.X != ssa.Value(fa) && !sameFieldAddr(ld.X, fa) {
+				return
+			}
+			// the entry is read from and written back to the map under this token
+			readOK, writeOK := false, false
+			for _, ref := range *cell.Referrers() {
+				if s2, ok := ref.(*ssa.Store); ok && s2.Addr == ssa.Value(cell) {
+					if lk, ok := s2.Val.(*ssa.Lookup); ok && isElem(lk.Index) {
+						readOK = true
+					}
+				}
+				if ld, ok := ref.(*ssa.UnOp); ok {
+					for _, r2 := range *ld.Referrers() {
+						if mu, ok := r2.(*ssa.MapUpdate); ok && mu.Value == ssa.Value(ld) && isElem(mu.Key) && l.InLoop(mu.Block()) {
+							writeOK = true
+						}
+					}
+				}
+			}
+			if !readOK || !writeOK {
+				return
+			}
+			tag := ssau.FieldName(fa)
+			if prev, dup := tagList[tag]; dup && prev != l.Over {
+				r.Bad("O-2", fk+"#tag:"+tag+":once", c.P.Pos(st.Pos()), "two different token lists are counted under the field "+tag)
+			}
+			tagList[tag] = l.Over
+		})
+	}
 	// lengths literal
 	lenList := map[string]ssa.Value{}
 	ssau.ForEachInstr(fn, false, func(in ssa.Instruction) {
@@ -711,6 +775,13 @@ func c03Build(c *Ctx, sx *symx.Ctx, F []string) {
 		})
 	}
 	r.Check(postOK, "O-3", fk+"#posting-docID", c.P.Pos(fn.Pos()), "postings[term] = append(postings[term], posting{docID: index of the per-document table, tf: that document's counts})", "postings are not built as posting{docID: i, tf: perDoc[i][term]} appended under the same term")
+}
+
+// sameFieldAddr: a is another address computation of the same field of the
+// same base as fa.
+func sameFieldAddr(a ssa.Value, fa *ssa.FieldAddr) bool {
+	fa2, ok := a.(*ssa.FieldAddr)
+	return ok && fa2.X == fa.X && fa2.Field == fa.Field
 }
 
 // viaCell: v is target, or a load of a local variable that only ever holds
